@@ -204,3 +204,89 @@ Fixpoint ordered_from (prev : Z) (ps : list (Z * Z)) (stop : Z) : bool :=
   end.
 Definition orderedb (s : list N) (xs : list (list Z)) : bool :=
   ordered_from 0 (map whole xs) (Z.of_nat (length s)).
+
+(* ------------------------------------------------------------------ test, capture, scan, split/2 (hand transcriptions)
+
+   def test($re; $flags): _match($re; $flags; true);       funcMatch(testing = true) = r.MatchString(s):
+   the model takes MatchString's answer as a second engine output *)
+Definition jq_test (matchstring : bool) : jv := JBool matchstring.
+
+(* def capture($re; $flags): match($re; $flags) | .captures | _captures;
+   funcCaptures: w := {}; for each capture in order: if its name is a string then w[name] = capture.string *)
+Definition captures_obj (names : list (list N)) (caps : list mrec) : list (str * jv) :=
+  fold_left (fun acc nc => match fst nc with
+                           | [] => acc
+                           | _ => oset (fst nc) (jstr (m_string (snd nc))) acc
+                           end) (combine names caps) [].
+Definition jq_capture (names : list (list N)) (mc : mrec * list mrec) : jv :=
+  JObj (captures_obj (tl names) (snd mc)).
+
+(* def scan($re; $flags): match($re; $flags + "g") |
+     if .captures == [] then .string else [.captures[].string] end; *)
+Definition jq_scan (mc : mrec * list mrec) : jv :=
+  match snd mc with
+  | [] => jstr (m_string (fst mc))
+  | caps => JArr (map (fun c => jstr (m_string c)) caps)
+  end.
+
+(* def split($re; $flags): [splits($re; $flags)]; *)
+Definition jq_split2 (s : list N) (ms : list (Z * Z)) : jv := JArr (map JStr (splits s ms)).
+
+(* ------------------------------------------------------------------ the global match loop (regexp.allMatches)
+
+   for pos, i, prevMatchEnd := 0, 0, -1; i < n && pos <= end; {
+     matches := re.doExecute(..., pos, ...); if len(matches) == 0 { break }
+     accept := true
+     if matches[1] == pos {                       // empty match
+       if matches[0] == prevMatchEnd { accept = false }
+       _, width = step(pos); if width > 0 { pos += width } else { pos = end + 1 }
+     } else { pos = matches[1] }
+     prevMatchEnd = matches[1]
+     if accept { deliver(matches); i++ } }
+   [exec s pos] stands for doExecute (leftmost match searching from byte pos); the second component of
+   the result says whether the fuel ran out (it never does: RegexProofs.all_matches_terminates) *)
+Section AllMatches.
+  Variable exec : list N -> nat -> option (list Z).
+
+  Fixpoint all_matches (s : list N) (fuel limit pos : nat) (prev : Z) : list (list Z) * bool :=
+    match fuel with
+    | O => ([], true)
+    | S f =>
+        match limit with
+        | O => ([], false)
+        | S lim' =>
+            if (length s <? pos)%nat then ([], false)
+            else match exec s pos with
+                 | None => ([], false)
+                 | Some m =>
+                     let '(a, b) := whole m in
+                     let empty_here := b =? Z.of_nat pos in
+                     let accept := negb (empty_here && (a =? prev)) in
+                     let pos' := if empty_here
+                                 then (if (pos <? length s)%nat then pos + snd (dec (skipn pos s)) else length s + 1)%nat
+                                 else Z.to_nat b in
+                     let '(rest, ex) := all_matches s f (if accept then lim' else limit) pos' b in
+                     (if accept then m :: rest else rest, ex)
+                 end
+        end
+    end.
+
+  (* FindAllStringSubmatchIndex(s, n): n < 0 means len(s)+1 *)
+  Definition find_all (s : list N) (global : bool) : list (list Z) :=
+    fst (all_matches s (length s + 2) (if global then length s + 1 else 1)%nat 0 (-1)).
+End AllMatches.
+
+(* ends of successive delivered matches strictly increase (so there are at most len+1 of them) *)
+Fixpoint ends_increasing (prev : Z) (ps : list (Z * Z)) : bool :=
+  match ps with
+  | [] => true
+  | (_, b) :: r => (prev <? b) && ends_increasing b r
+  end.
+Definition progressb (xs : list (list Z)) : bool := ends_increasing (-1) (map whole xs).
+
+(* regexp rejects duplicate group names: the non-empty names are pairwise distinct *)
+Fixpoint names_nodupb (names : list (list N)) : bool :=
+  match names with
+  | [] => true
+  | n :: r => (match n with [] => true | _ => negb (existsb (list_eqb n) r) end) && names_nodupb r
+  end.
